@@ -23,8 +23,8 @@ func ownC(scope, coin int, acct uint32, amt int64) fundOut {
 	return fundOut{Scope: scope, Coin: coin, Acct: acct, Amt: amt}
 }
 func imp(i int, amt int64) fundOut { return fundOut{Imp: i, Amt: amt} }
-func mine(n int) op               { return op{K: "mine", N: n, Include: "all"} }
-func pay(amt int64) []payOut { return []payOut{{Kind: "p2wpkh", Amt: amt}} }
+func mine(n int) op                { return op{K: "mine", N: n, Include: "all"} }
+func pay(amt int64) []payOut       { return []payOut{{Kind: "p2wpkh", Amt: amt}} }
 func req(r reqSpec) op {
 	if r.Rate == 0 {
 		r.Rate = 1000
@@ -260,7 +260,6 @@ func systematic() []scenario {
 		req(reqSpec{API: "send", Acct: 0, Scope: 84, MinConf: 0, Pay: pay(100000)}),
 		req(reqSpec{API: "create", Acct: 0, Scope: 84, MinConf: 0, Pay: pay(10000), Explicit: []int{1}}))
 
-
 	// ---- key scopes are (purpose, coin type) pairs: BIP84 (84, 0) and the
 	// custom scope (84, 1) share the purpose.  Coin 0 = 50 000 in the requested
 	// scope, coin 1 = 1 000 000 in the other one.
@@ -290,6 +289,35 @@ func systematic() []scenario {
 	add("no_scope_spends_default_and_custom", fund(true, own(84, 0, 300000), ownC(84, customCoin, 0, 300000), own(44, 0, 300000)),
 		req(reqSpec{API: "send", Acct: 0, Scope: 0, MinConf: 1, Pay: pay(800000)}))
 
+	// ---- a change scope of its own (WithCustomChangeScope): the SELECTION scope
+	// still decides the inputs.  Coin 0 = 50 000 in the selection scope, coin 1
+	// = 1 000 000 in the change scope.
+	for _, d := range []struct {
+		name         string
+		sel, selCoin int
+		chg, chgCoin int
+	}{{"sel86_chg84", 86, 0, 84, 0}, {"sel84_chg86", 84, 0, 86, 0}, {"sel44_chg49", 44, 0, 49, 0}, {"sel84_chg_custom", 84, 0, 84, customCoin},
+		{"sel_custom_chg84", 84, customCoin, 84, 0}} {
+		setup := fund(true, ownC(d.sel, d.selCoin, 0, 50000), ownC(d.chg, d.chgCoin, 0, 1000000))
+		for _, api := range []string{"create", "fundpsbt"} {
+			for _, explicit := range []bool{false, true} {
+				r := reqSpec{API: api, Acct: 0, Scope: d.sel, Coin: d.selCoin, ChgScope: d.chg, ChgCoin: d.chgCoin, MinConf: 1, Pay: pay(200000)}
+				n := "auto"
+				if explicit {
+					r.Explicit, n = []int{0, 1}, "explicit"
+				}
+				add("bad_change_scope_coin_"+d.name+"_"+api+"_"+n, setup, req(r),
+					// the good side: the selection scope's own coin pays, the change goes to the other scope
+					req(reqSpec{API: api, Acct: 0, Scope: d.sel, Coin: d.selCoin, ChgScope: d.chg, ChgCoin: d.chgCoin, MinConf: 1, Pay: pay(20000), Publish: true}),
+					req(reqSpec{API: "create", Acct: 0, Scope: d.chg, Coin: d.chgCoin, ChgScope: d.sel, ChgCoin: d.selCoin, MinConf: 0, Pay: pay(900000), Strat: "random"}))
+			}
+		}
+	}
+	// no selection scope, change scope given: every scope's coins of the account are eligible
+	add("no_selection_scope_custom_change_scope", fund(true, own(84, 0, 300000), own(86, 0, 300000), own(44, 1, 900000)),
+		req(reqSpec{API: "create", Acct: 0, Scope: 0, ChgScope: 84, MinConf: 1, Pay: pay(500000), Publish: true}),
+		req(reqSpec{API: "fundpsbt", Acct: 1, Scope: 0, ChgScope: 49, MinConf: 1, Pay: pay(500000)}))
+
 	// ---- imported private keys (account ImportedAddrAccount of the scope they
 	// were imported into), compressed and uncompressed
 	for i, ik := range importedKeys {
@@ -303,8 +331,8 @@ func systematic() []scenario {
 	// a key imported WITHOUT its private part next to one with it: signed only
 	// when every selected input's key is held
 	add("imported_public_only_next_to_private", fund(true, imp(3, 600000), imp(6, 300000)),
-		req(reqSpec{API: "create", Acct: importedAcc, Scope: 84, MinConf: 1, Pay: pay(100000)}),                      // key 3 alone: signed
-		req(reqSpec{API: "create", Acct: importedAcc, Scope: 84, MinConf: 1, Pay: pay(800000)}),                      // both: unsigned
+		req(reqSpec{API: "create", Acct: importedAcc, Scope: 84, MinConf: 1, Pay: pay(100000)}),                     // key 3 alone: signed
+		req(reqSpec{API: "create", Acct: importedAcc, Scope: 84, MinConf: 1, Pay: pay(800000)}),                     // both: unsigned
 		req(reqSpec{API: "create", Acct: importedAcc, Scope: 84, MinConf: 1, Pay: pay(100000), Explicit: []int{1}}), // key 6 alone: unsigned
 		req(reqSpec{API: "send", Acct: importedAcc, Scope: 84, MinConf: 1, Pay: pay(100000)}))
 	add("imported_keys_no_scope", fund(true, imp(1, 400000), imp(2, 400000), imp(3, 400000), imp(5, 400000)),
@@ -352,7 +380,7 @@ func systematic() []scenario {
 	add("publish_rejected_releases_inputs", fund(true, own(84, 0, 1000000), own(84, 0, 50000)),
 		req(reqSpec{API: "create", Acct: 0, Scope: 84, MinConf: 1, Pay: pay(300000)}), // held, spends coin 0
 		op{K: "publish", Tx: 0, Reject: true},
-		req(reqSpec{API: "send", Acct: 0, Scope: 84, MinConf: 1, Pay: pay(300000)}), // needs coin 0 again
+		req(reqSpec{API: "send", Acct: 0, Scope: 84, MinConf: 1, Pay: pay(300000)}),                      // needs coin 0 again
 		req(reqSpec{API: "create", Acct: 0, Scope: 84, MinConf: 1, Pay: pay(10000), Explicit: []int{0}})) // now published: refused
 	add("published_then_restart_no_reuse", fund(true, own(84, 0, 1000000), own(84, 0, 900000)),
 		req(reqSpec{API: "send", Acct: 0, Scope: 84, MinConf: 1, Pay: pay(300000)}), // spends coin 0
@@ -638,6 +666,22 @@ func randomRequest(r *gen.R, t *trace) *reqSpec {
 	var total int64
 	for _, c := range elig {
 		total += c.amt
+	}
+	if (rs.API == "create" || rs.API == "fundpsbt") && r.Chance(1, 4) {
+		// a change scope of its own, most of the time another one than the selection scope
+		rs.ChgScope = purposes[r.Intn(4)]
+		if r.Chance(1, 5) {
+			rs.ChgScope, rs.ChgCoin = 84, customCoin
+		}
+		if r.Chance(1, 2) {
+			// the scope of some other live coin of the account
+			if l := coinsWhere(t, func(c *coin) bool {
+				return c.own.Acct == rs.Acct && t.L.spender(c.op, nil) == nil && (c.own.Scope != rs.Scope || c.own.Coin != rs.Coin)
+			}); len(l) > 0 {
+				c := t.L.coins[pickFrom(r, l)]
+				rs.ChgScope, rs.ChgCoin = c.own.Scope, c.own.Coin
+			}
+		}
 	}
 	rs.Dry = rs.API == "create" && r.Chance(2, 5)
 	rs.Publish = r.Chance(3, 5)
